@@ -223,7 +223,7 @@ theorem trans_connect {cfg : Config} {s : State} (inv : Inv cfg s) (c : Nat) (ws
       subst h
       exact Or.inr ⟨rfl, rfl⟩
   have hinv : Inv cfg { s with peers := s.peers ++ [{ conn := c, ws := ws, isLocal := isLocal, addrTok := addr }] } := by
-    refine ⟨⟨?_, ?_, inv.elems.idxNodup, ?_⟩, ⟨?_, ?_, ?_, ?_, ?_⟩, ?_⟩
+    refine ⟨⟨?_, ?_, inv.elems.idxNodup, ?_⟩, ⟨?_, ?_, ?_, ?_, ?_, ?_⟩, ?_⟩
     · intro q hq e he
       rcases hmem q hq with h | h
       · exact inv.elems.owner q h e he
@@ -254,6 +254,12 @@ theorem trans_connect {cfg : Config} {s : State} (inv : Inv cfg s) (c : Nat) (ws
       rcases hmem q hq with h | h
       · exact inv.fetches.uidNodup q h
       · rw [h.2]; simp
+    · intro q hq q' hq' f hf g hg hu
+      rcases hmem q hq with h | h
+      · rcases hmem q' hq' with h' | h'
+        · exact inv.fetches.uidGlobal q h q' h' f hf g hg hu
+        · rw [h'.2] at hg; cases hg
+      · rw [h.2] at hf; cases hf
     · intro q hq f hf
       rcases hmem q hq with h | h
       · exact inv.fetches.fidOk q h f hf
@@ -455,7 +461,7 @@ theorem run_exec {cfg : Config} : ∀ (ops : List Op) {s : State}, Inv cfg s →
       simp
 
 theorem inv_init (cfg : Config) (us : List User) : Inv cfg { users := us } := by
-  refine ⟨⟨?_, ?_, ?_, ?_⟩, ⟨?_, ?_, ?_, ?_, ?_⟩, ?_⟩
+  refine ⟨⟨?_, ?_, ?_, ?_⟩, ⟨?_, ?_, ?_, ?_, ?_, ?_⟩, ?_⟩
   all_goals first
     | (intro p hp; cases hp)
     | (intro e he; simp [allElems] at he)
